@@ -20,6 +20,7 @@ RULE = (
     "(thorough; quick: d=2 M<=4,k<=2 for B_2/C2^2/C4 + d=3 M<=3,k<=1). Each tuple: both scale modes. Non-trivial: expected "
     "dimension >= 1 (dimension-0 tuples are still checked: the family must be empty); distinct by tuple."
 )
+RULE += " One assembly request for several side lengths (odd and even mixed, any order) is checked entry by entry."
 RULE += " Assembly functions are called with the parities / orders in varying order and container; each family is re-checked under the key it is filed under. Also: operator lists in shuffled order (2 of 3 cases), a decoy request for another group of equal order first, and (thorough) the two HEAVY tuples d=3 M=5 k=3 for C3 and C4z."
 EXHAUSTIVE = {"quick": True, "thorough": True}
 ASSUMPTIONS = [
@@ -216,14 +217,49 @@ def run(case, ctx):
             evals += 3
             viols += _mon.take()
             counts = {(kk, pp): rinv.invariant_dim(ops, M, D, kk, pp) for kk in ks for pp in sorted(set(par_arg))}
-            for (kk, pp), c in counts.items():
-                if len(fd[(D, M, kk, pp)]) != c:
-                    viols.append(viol("assembly-dict", f"dict assembly holds {len(fd[(D, M, kk, pp)])} filters for {(kk, pp)}, expected {c} (parities given as {par_arg}, orders as {ks_arg}); {key}"))
-                for f in fd[(D, M, kk, pp)]:
-                    a = np.asarray(f.data, dtype=np.float64)
-                    if f.parity != pp or f.k != kk or any(np.max(np.abs(ract.act(D, a, kk, pp, g) - a)) > 1e-6 * max(1.0, np.max(np.abs(a))) for g in ops):
-                        viols.append(viol("assembly-dict-wrong-family", f"the family filed under {(kk, pp)} is not invariant as a ({kk},{pp}) filter / declares (k={f.k}, parity={f.parity}) (parities given as {par_arg}, orders as {ks_arg}); {key}"))
-                        break
+
+            def check_dict(fdict, Ms_arg):
+                """Every family of the dict, under the key (D, M', k, p) it is filed under: count == dimension, right shape and
+                declared type, invariant, linearly independent."""
+                for Mx in Ms_arg:
+                    for kk in ks:
+                        for pp in sorted(set(par_arg)):
+                            c = rinv.invariant_dim(ops, Mx, D, kk, pp)
+                            fam = fdict.get((D, Mx, kk, pp))
+                            how = f"(sizes given as {list(Ms_arg)}, parities as {par_arg}, orders as {ks_arg})"
+                            if fam is None or len(fam) != c:
+                                viols.append(viol("assembly-dict", f"dict assembly holds {None if fam is None else len(fam)} filters for M={Mx} {(kk, pp)}, expected {c} {how}; {key}"))
+                                continue
+                            rows = []
+                            for f in fam:
+                                a = np.asarray(f.data, dtype=np.float64)
+                                if a.shape != (Mx,) * D + (D,) * kk or f.parity != pp or f.k != kk or any(np.max(np.abs(ract.act(D, a, kk, pp, g) - a)) > 1e-6 * max(1.0, np.max(np.abs(a))) for g in ops):
+                                    viols.append(viol("assembly-dict-wrong-family", f"the family filed under M={Mx} {(kk, pp)} is not invariant as a ({kk},{pp}) filter of side {Mx} / declares (k={f.k}, parity={f.parity}, shape {a.shape}) {how}; {key}"))
+                                    break
+                                rows.append(a.reshape(-1))
+                            else:
+                                if rows and rinv.rank_svd(rows)[0] < len(rows):
+                                    viols.append(viol("assembly-dict-dependent", f"the family filed under M={Mx} {(kk, pp)} is linearly dependent {how}; {key}"))
+
+            check_dict(fd, [M])
+            # ONE request for several side lengths (odd and even mixed, in any order): each (D, M', k, p) entry must be the
+            # family of that side length - a request is a set of independent questions
+            cap = 5 if D == 2 else 3
+            if (M**D) * (D**k) <= 300 and M <= cap:
+                others = [m for m in (M + 1, M - 1, M + 2) if 1 <= m <= cap]
+                Ms_arg = [[M] + others[:1], others[:1] + [M], others[:2] + [M], [M] + others[:2][::-1]][case["i"] % 4]
+                fd2, maxn2 = geom.get_invariant_filters_dict(Ms_arg, ks_arg, par_arg, D, ops)
+                fl2 = geom.get_invariant_filters_list(tuple(Ms_arg), ks_arg, par_arg, D, ops)
+                evals += 2
+                viols += _mon.take()
+                check_dict(fd2, Ms_arg)
+                want_n = sum(rinv.invariant_dim(ops, Mx, D, kk, pp) for Mx in Ms_arg for kk in ks for pp in sorted(set(par_arg)))
+                if len(fl2) != want_n:
+                    viols.append(viol("assembly-list", f"list assembly for sizes {Ms_arg} has {len(fl2)} filters, expected {want_n}; {key}"))
+                for Mx in Ms_arg:
+                    want_max = max(rinv.invariant_dim(ops, Mx, D, kk, pp) for kk in ks for pp in sorted(set(par_arg)))
+                    if maxn2.get((D, Mx)) != want_max:
+                        viols.append(viol("assembly-dict", f"maxn[(D={D}, M={Mx})] = {maxn2.get((D, Mx))}, the largest family has {want_max} filters (sizes given as {Ms_arg}); {key}"))
             if len(fl) != sum(counts.values()):
                 viols.append(viol("assembly-list", f"list assembly has {len(fl)} filters, expected {sum(counts.values())}; {key}"))
             if fm is not None:
